@@ -273,3 +273,70 @@ pub fn parse_rule_ast(line: &str, group: usize, line_no: usize) -> Result<Option
     items_toks(&rule.except, &mut out);
     Ok(Some(out.join(" ")))
 }
+
+// ---------------------------------------------------------------------------------------------------
+// The lexer and the parser, one line at a time (for an external model of both).
+//
+//   lex_line   : "ok kind|cp.cp|start|end;..."  |  "err Variant start end"
+//   parse_line : "none" | "ok <the flat stream of parse_rule_ast>" | "err Variant start end [start end]"
+//
+// An error is reported as its variant name and the column span(s) `format_rule_error` underlines.
+
+use crate::error::RuleSyntaxError;
+
+fn syn_err_spans(e: &RuleSyntaxError) -> (String, Vec<(usize, usize)>) {
+    use RuleSyntaxError as E;
+    let dbg = format!("{e:?}");
+    let name: String = dbg.chars().take_while(|c| c.is_ascii_alphanumeric()).collect();
+    let spans = match e {
+        E::UnexpectedEol(t, ..) | E::OptMathError(t, ..) |
+        E::ExpectedTokenFeature(t) | E::ExpectedRightBracket(t) | E::TooManyUnderlines(t) | E::ExpectedUnderline(t) |
+        E::ExpectedVariable(t) | E::UnknownGrouping(t) | E::ExpectedSegment(t) | E::ExpectedEndLine(t) | E::ExpectedMatrix(t) |
+        E::ExpectedArrow(t) | E::ExpectedComma(t) | E::ExpectedColon(t) | E::ToneTooBig(t) | E::UnknownIPA(t) | E::InsertErr(t) |
+        E::DeleteErr(t) | E::MetathErr(t) | E::BadSyllableMatrix(t) => vec![(t.position.start, t.position.end)],
+        E::UnknownFeature(_, p) | E::UnknownEnbyFeature(_, p) | E::WordBoundLoc(p) | E::OptLocError(p) | E::EmptySet(p) => vec![(p.start, p.end)],
+        E::ExpectedAlphabetic(_, _, _, p) | E::ExpectedCharArrow(_, _, _, p) | E::ExpectedCharColon(_, _, _, p) | E::MalformedComment(_, _, _, p) |
+        E::UnknownCharacter(_, _, _, p) | E::ExpectedCharDot(_, _, _, p) | E::ExpectedNumber(_, _, _, p) |
+        E::OutsideBrackets(_, _, p) | E::NestedBrackets(_, _, p) | E::WrongModTone(_, _, p) | E::EmptyOutput(_, _, p) | E::EmptyInput(_, _, p) |
+        E::EmptyEnv(_, _, p) => vec![(*p, *p + 1)],
+        E::TooManyWordBoundaries(p) | E::StuffBeforeWordBound(p) | E::StuffAfterWordBound(p) => vec![(p.start, p.start + 1)],
+        E::InsertDelete(_, _, a, b) | E::InsertMetath(_, _, a, b) => vec![(*a, *a + 1), (*b, *b + 1)],
+        E::UnexpectedDiacritic(a, b) | E::DiacriticDoesNotMeetPreReqsFeat(a, b, ..) | E::DiacriticDoesNotMeetPreReqsNode(a, b, ..) => vec![(a.start, a.end), (b.start, b.end)],
+        E::UnbalancedRuleEnv(items) => match (items.first(), items.last()) { (Some(f), Some(l)) => vec![(f.position.start, l.position.end)], _ => vec![] },
+        E::UnbalancedRuleIO(items) => match (items.first().and_then(|x| x.first()), items.last().and_then(|x| x.last())) { (Some(f), Some(l)) => vec![(f.position.start, l.position.end)], _ => vec![] },
+    };
+    (name, spans)
+}
+
+fn syn_err_line(e: &RuleSyntaxError) -> String {
+    let (name, spans) = syn_err_spans(e);
+    format!("err {name} {}", spans.iter().map(|(a, b)| format!("{a} {b}")).collect::<Vec<_>>().join(" "))
+}
+
+/// `Lexer::get_line` on one rule line: the tokens (kind, value as code points, span) or the lexer's error.
+pub fn lex_line(line: &str) -> String {
+    let chars: Vec<char> = line.chars().collect();
+    match Lexer::new(&chars, 0, 0).get_line() {
+        Ok(toks) => format!("ok {}", toks.iter().map(|t| format!("{:?}|{}|{}|{}", t.kind,
+            t.value.chars().map(|c| (c as u32).to_string()).collect::<Vec<_>>().join("."), t.position.start, t.position.end)).collect::<Vec<_>>().join(";")),
+        Err(e) => syn_err_line(&e),
+    }
+}
+
+/// Lexer then `Parser::parse` on one rule line, errors with the spans the formatter underlines.
+pub fn parse_line(line: &str) -> String {
+    let chars: Vec<char> = line.chars().collect();
+    let toks = match Lexer::new(&chars, 0, 0).get_line() { Ok(t) => t, Err(e) => return syn_err_line(&e) };
+    match Parser::new(toks, 0, 0).parse() {
+        Ok(None) => "none".to_string(),
+        Ok(Some(rule)) => {
+            let mut out: Vec<String> = Vec::new();
+            out.push(rule.input.len().to_string()); for l in &rule.input { items_toks(l, &mut out); }
+            out.push(rule.output.len().to_string()); for l in &rule.output { items_toks(l, &mut out); }
+            items_toks(&rule.context, &mut out);
+            items_toks(&rule.except, &mut out);
+            format!("ok {}", out.join(" "))
+        }
+        Err(e) => syn_err_line(&e),
+    }
+}
